@@ -236,7 +236,10 @@ class NotInTimeWindow(SnmpError):
     """
 
     def __init__(self, oid: str, value: int, reporting: str) -> None:
-        super().__init__()
+        super().__init__(
+            f"Error response from {reporting} device: Not in time window "
+            f"({oid}={value})"
+        )
         self.oid = oid
         self.value = value
         self.reporting = reporting
